@@ -3,69 +3,51 @@ import MythVerif.Proofs.WsQueueTsoTac
 namespace MythVerif.WsqTso
 open MythVerif.Wsq
 
-set_option maxHeartbeats 4000000 in
 theorem o_po6 (s s' : St) (r) : Inv s → s.opc = .po6 r → stepO s = some s' → Inv s' := by
   intro h heq hs
   have hcfg := h.cfg
-  cases h
   simp only [stepO, heq, releaseO, hcfg, code_unlockFence, if_true] at hs
   split at hs
   · rename_i hb
     simp at hb
     simp at hs; subst hs
-    simp only [heq, ownerLocked, carry, resetting, ownerFlight] at *
-    tso_finish
+    tso_fastO h heq [po6]
   · simp at hs
 
-set_option maxHeartbeats 4000000 in
 theorem o_po7 (s s' : St) : Inv s → s.opc = .po7 → stepO s = some s' → Inv s' := by
   intro h heq hs
-  cases h
   simp only [stepO, heq] at hs
   simp at hs; subst hs
-  simp only [heq, ownerLocked, carry, resetting, ownerFlight] at *
-  tso_finish
+  tso_fastO h heq [po7]
 
-set_option maxHeartbeats 4000000 in
 theorem o_po8 (s s' : St) : Inv s → s.opc = .po8 → stepO s = some s' → Inv s' := by
   intro h heq hs
-  cases h
   simp only [stepO, heq] at hs
   simp at hs; subst hs
-  simp only [heq, ownerLocked, carry, resetting, ownerFlight] at *
-  tso_finish
+  tso_fastO h heq [po8]
 
-set_option maxHeartbeats 4000000 in
 theorem o_po9 (s s' : St) : Inv s → s.opc = .po9 → stepO s = some s' → Inv s' := by
   intro h heq hs
   have hcfg := h.cfg
-  cases h
   simp only [stepO, heq, releaseO, hcfg, code_unlockFence, if_true] at hs
   split at hs
   · rename_i hb
     simp at hb
     simp at hs; subst hs
-    simp only [heq, ownerLocked, carry, resetting, ownerFlight] at *
-    tso_finish
+    tso_fastO h heq [po9]
   · simp at hs
 
-set_option maxHeartbeats 4000000 in
 theorem o_po5c (s s' : St) (t r) : Inv s → s.opc = .po5c t r → stepO s = some s' → Inv s' := by
   intro h heq hs
-  cases h
   simp only [stepO, heq] at hs
   split at hs
   all_goals (simp at hs; subst hs)
-  all_goals simp only [heq, ownerLocked, carry, resetting, ownerFlight] at *
-  all_goals tso_finish
+  all_goals tso_fastO h heq [po5c]
 
-set_option maxHeartbeats 4000000 in
 theorem o_po5d (s s' : St) (r) : Inv s → s.opc = .po5d r → stepO s = some s' → Inv s' := by
   intro h heq hs
-  cases h
   simp only [stepO, heq] at hs
   simp at hs; subst hs
-  simp only [heq, ownerLocked, carry, resetting, ownerFlight] at *
-  tso_finish
+  tso_fastO h heq [po5d]
 
 end MythVerif.WsqTso
